@@ -29,6 +29,7 @@ def one(rounds, d, state_bits):
                                       experiment_repetitions=1)
     row = {'rounds': list(rounds), 'H': 1, 'reps': 1, 'd': d, 'state': list(state_bits), 'cycle': int(kern.kernel_cycle_length), 'qubits': []}
     states = [StateKey.STATE_0, StateKey.STATE_1, StateKey.STATE_2]
+    ops = circ.operations
     for qid in desc.data_qubit_ids + desc.ancilla_qubit_ids:
         idx = desc.map_qubit_id_to_circuit_index(qid)
         anc = qid in desc.ancilla_qubit_ids
@@ -42,6 +43,21 @@ def one(rounds, d, state_bits):
              'k_proj': [L(kern.get_projected_cycle_acquisition_indices(qid, r)) for r in rounds],
              'k_cal_her': [L(kern.get_heralded_calibration_acquisition_indices(qid, s)) for s in states],
              'k_cal_proj': [L(kern.get_projected_calibration_acquisition_indices(qid, s)) for s in states]}
+        # what is done to the qubit between its measurements: gates[j] = kinds of the operations on this qubit since its
+        # previous measurement, for the measurement with per-qubit index meas[j]
+        gates, meas, cur = [], [], []
+        for op in ops:
+            qs = list(getattr(op, 'qubit_indices', None) or ([op.qubit_index] if hasattr(op, 'qubit_index') else []))
+            if idx not in qs or type(op).__name__ in ('Barrier', 'CoordinateShiftOperation', 'DetectorOperation', 'LogicalObservableOperation'):
+                continue
+            if type(op).__name__ == 'DispersiveMeasure':
+                meas.append(int(op.acquisition_index))
+                gates.append(cur)
+                cur = []
+            else:
+                cur.append(type(op).__name__)
+        q['meas'] = meas
+        q['gates'] = gates
         row['qubits'].append(q)
     return row
 
